@@ -16,6 +16,7 @@ func init() {
 			"since/until of openLog: the resolved range reaches the daemon as the same instants",
 			"FE-BOOL IsInstant (a range query whose ends coincide gets no look-back)",
 			"PV-ROLE APIFlag.Set stores its argument verbatim; PV-GUARD each of since/start/end is parsed under conditions on that flag only",
+			"PV-GUARD --since: the parsed duration is not compared with a constant to choose a default",
 		},
 		NotDecided: []string{"float rounding of fractional seconds beyond 'rounded, not truncated'", "model.ParseDuration semantics"},
 		Rules: func(r *Run) {
@@ -25,6 +26,7 @@ func init() {
 			ruleIsInstant(r)
 			ruleAPIFlagVerbatim(r)
 			ruleTimeRangeIndependentFlags(r)
+			ruleSinceZeroIsAValue(r)
 		},
 	})
 }
